@@ -179,6 +179,54 @@ def _guarded_by_alias(f, call, e):
     return False
 
 
+def _none_default_cannot_reach(f, call, ty):
+    """the item handed to the factory is a local that is None only through an explicit `x = None` default, and no path through the
+    enclosing loop body carries that default to the call (`inner_pin = None … port = inner_pin.port if inner_pin else None … if port:`)"""
+    from ..paths import stmt_paths
+    a = call.args[1]
+    if not isinstance(a, ast.Name):
+        return False
+    x = a.id
+    vals = []
+    for n in walk_local(f.node):
+        if isinstance(n, ast.Assign) and len(n.targets) == 1:
+            t = n.targets[0]
+            if isinstance(t, ast.Name) and t.id == x:
+                vals.append((n, n.value))
+            elif isinstance(t, ast.Tuple) and isinstance(n.value, ast.Tuple) and len(t.elts) == len(n.value.elts):
+                vals.extend((n, v) for tt, v in zip(t.elts, n.value.elts) if isinstance(tt, ast.Name) and tt.id == x)
+            elif any(isinstance(tt, ast.Name) and tt.id == x for tt in ast.walk(t)):
+                return False
+        elif isinstance(n, (ast.For, ast.comprehension)) and any(isinstance(tt, ast.Name) and tt.id == x for tt in ast.walk(n.target)):
+            return False
+    if not any(isinstance(v, ast.Constant) and v.value is None for n, v in vals):
+        return False
+    for n, v in vals:
+        if isinstance(v, ast.Constant) and v.value is None:
+            continue
+        if isinstance(v, ast.Attribute) and v.attr in ("instance", "inner_pin"):
+            continue  # (C02-M2/M6, see below)
+        cn = next((c for c in ty.cfg.nodes if c.ast is n and c.id in ty.state), None)
+        if cn is None or _nullable(ty.type_of(v, ty.env_at(cn))):
+            return False
+    inner = next((p for p in parent_chain(call) if isinstance(p, (ast.For, ast.While))), None)
+    body = inner.body if inner is not None else f.node.body
+    cstmt = next((p for p in [call] + list(parent_chain(call)) if isinstance(p, ast.stmt)), None)
+    bad = [False]
+    seen = [0]
+
+    def probe(st, facts, defs=None):
+        if st is cstmt:
+            seen[0] += 1
+            d = (defs or {}).get(x)
+            if d is None or d.replace("(", "").replace(")", "") == "None":
+                bad[0] = True
+    paths = list(stmt_paths(body, frozenset(), {}, None, probe, opaque_loops=True))
+    if any(oc is None for oc, fa, df in paths) or not seen[0]:
+        return False
+    return not bad[0]
+
+
 def _is_closure_site(f, call):
     if f.name in CLOSURE_FUNCS:
         return True
@@ -223,8 +271,10 @@ def _typed_sites(ctx, R, rid, closure):
     for key, (f, calls) in sorted(by_func.items()):
         # OuterPin.instance / .inner_pin are nulled only when the pin is disconnected and dropped from its instance (C02-M2/M6), so an
         # outer pin reached through a wire or an instance always has both
+        tys = {id(c): ty_ for f_, c, pt_, it_, ty_ in sites if f_ is f}
         nullcap = {id(c) for c, it in calls if _nullable(it) and not _guarded_by_alias(f, c, c.args[1])
-                   and not (isinstance(c.args[1], ast.Attribute) and c.args[1].attr in ("instance", "inner_pin"))}
+                   and not (isinstance(c.args[1], ast.Attribute) and c.args[1].attr in ("instance", "inner_pin"))
+                   and not _none_default_cannot_reach(f, c, tys[id(c)])}
         if not nullcap:
             continue
         memo = {}
